@@ -1156,7 +1156,7 @@ func (ex *Executor) convert(st *State, v Val, from, to types.Type) Val {
 		}
 	case BytesV:
 		if tb, ok := tu.(*types.Basic); ok && tb.Info()&types.IsString != 0 {
-			return x.S
+			return ex.bytesContent(st, x)
 		}
 		return x
 	case SliceV:
@@ -1656,6 +1656,8 @@ func (ex *Executor) SetupRedirects(pkg *ssa.Package) {
 		"(*sync.Once).Do":   "verifModelOnceDo",
 		"errors.Is":         "verifModelErrorsIs",
 		"(*bytes.Reader).WriteTo": "verifModelReaderWriteTo",
+		"(*sync.Pool).Get":        "verifModelPoolGet",
+		"(*sync.Pool).Put":        "verifModelPoolPut",
 	}
 	for k, v := range m {
 		if f := pkg.Func(v); f != nil {
